@@ -144,7 +144,7 @@ func c14Mac(r *run.Run) {
 	})
 }
 
-var c14Strings = []string{"line breaks: one\rtwo\r\nthree\nfour\ttab", "A", "Ünï-Latin1 é", "€ sign", "字体 CJK", "astral 𝔘𝔫𝔦 \U0010FFFF", "mixed\u0000nul", "�￾", "Why? https://example.com/?q=1", "?"}
+var c14Strings = []string{"line breaks: one\rtwo\r\nthree\nfour\ttab", "A", "Ünï-Latin1 é", "€ sign", "字体 CJK", "astral 𝔘𝔫𝔦 \U0010FFFF", "mixed\u0000nul", "ends in nul\u0000", "\u0000\u0000", "�￾", "Why? https://example.com/?q=1", "?"}
 
 func c14Names(r *run.Run) {
 	apple, ms := name.VerifLanguageTables()
@@ -167,7 +167,7 @@ func c14Names(r *run.Run) {
 		return langs[i].id < langs[j].id
 	})
 	ids := []name.ID{0, 1, 2, 3, 4, 5, 6, 13, 14, 15, 19, 25, 26, 255, 256, 65535}
-	macStrings := []string{"A", "Ünï-Latin1 é", "€ sign ™ ƒ", "fi ligature ﬁ", "Why? https://example.com/?q=1", "?", "line breaks: one\rtwo\r\nthree\nfour\ttab"}
+	macStrings := []string{"A", "nul at the end\u0000", "Ünï-Latin1 é", "€ sign ™ ƒ", "fi ligature ﬁ", "Why? https://example.com/?q=1", "?", "line breaks: one\rtwo\r\nthree\nfour\ttab"}
 
 	r.Explore(explore.Config{Name: "C14.name-single"}, "every supported Macintosh and Windows language singly x name id x string: Decode(Encode(info)) == info; an independent parser finds the record under the platform language id of that tag with the string in the platform encoding",
 		func(c *explore.Ctx) {
